@@ -24,6 +24,16 @@ Oracle (from the connect() docstring)
     connect() returns within a bounded number of driver calls
   * connect() raises nothing
 
+leg `rounds`: the same options in a field that changes while ONE connect()
+call is running: a script of episodes in virtual time (peer device as
+initiator / target, Type 2 / Type 3 tag, remote reader, nobody, with pauses
+in between), on-release mostly returning a false value so that connect() goes
+through several discovery rounds and activations, terminate() turning true in
+the middle of an episode or after the last one.  Same oracle, plus: an
+on-discover / on-connect callback is only made after the driver really
+completed a discovery / activation since the previous one (`act` entries of
+the time line; also applied in the `connect` leg).
+
 leg `sense`: target lists mixing supported, unsupported (bit rate/technology
 the driver rejects) and invalid targets with zero/one/several tags present:
 several targets never raise, the first present target in argument order is
@@ -51,6 +61,13 @@ ASSUMPTIONS = [
     "that is not documented either way and only labelled",
     "SystemExit leaving connect() after an IOError inside the LLCP run loop "
     "is reported as a violation of 'returns False' (known finding)",
+    "'an activation really happened' is read off the simulated driver: a "
+    "sense_tt* / listen_tt* / listen_dep call returned a target or an NFC-DEP "
+    "ATR_RES was handed to the stack since the previous callback of that "
+    "name",
+    "rounds leg: counterparts come and go at scripted virtual times; every "
+    "driver call of the device under test takes 1 ms of virtual time; a tag "
+    "that left and came back needs a new activation",
 ]
 
 
@@ -59,6 +76,25 @@ def setup():
 
 
 # -------------------------------------------------------------- environment
+def make_tag(kind):
+    if kind == "t2t":
+        mem, _ = ref_tlv.build({"kind": "t2t", "size": 6, "extra": 0,
+                                "ctrl": [], "nulls": 0}, b"\xd0\x00\x00")
+        return simtags.T2Tag(mem)
+    if kind == "t3t":
+        return simtags.T3Tag(simtags.t3_image(0x10, 4, 1, 4, 3,
+                                              b"\xd0\x00\x00"))
+    return None
+
+
+def is_atr_res(frame):
+    """NFC-DEP ATR_RES as the driver hands it up (106A: SB F0 first)"""
+    f = bytes(frame or b"")
+    if f[:1] == b"\xF0":
+        f = f[1:]
+    return len(f) >= 3 and f[0] == len(f) and f[1:3] == b"\xD5\x01"
+
+
 class EnvDevice(simdev.SimDevice):
     def __init__(self, air, name, env, trace):
         simdev.SimDevice.__init__(self, air, name)
@@ -71,14 +107,14 @@ class EnvDevice(simdev.SimDevice):
         self.reader_cmds = 0
         self.card_active = False
         self.dcalls = 0
-        kind = env.get("tag")
-        if kind == "t2t":
-            mem, _ = ref_tlv.build({"kind": "t2t", "size": 6, "extra": 0,
-                                    "ctrl": [], "nulls": 0}, b"\xd0\x00\x00")
-            self.tag = simtags.T2Tag(mem)
-        elif kind == "t3t":
-            self.tag = simtags.T3Tag(simtags.t3_image(0x10, 4, 1, 4, 3,
-                                                      b"\xd0\x00\x00"))
+        self.tag = make_tag(env.get("tag"))
+
+    def _act(self, what, result):
+        """time line entry when the driver really completed a discovery /
+        activation step (the ground truth for 'an activation happened')"""
+        if result is not None:
+            self.trace.append(("act", what))
+        return result
 
     def _call(self, name):
         self.dcalls += 1
@@ -101,6 +137,25 @@ class EnvDevice(simdev.SimDevice):
             self.tag.reset()
 
     def sense_tta(self, target):
+        return self._act("sense", self._sense_tta(target))
+
+    def sense_ttf(self, target):
+        return self._act("sense", self._sense_ttf(target))
+
+    def listen_dep(self, target, timeout):
+        return self._act("listen_dep", simdev.SimDevice.listen_dep(
+            self, target, timeout))
+
+    def listen_ttf(self, target, timeout):
+        return self._act("listen", self._listen_ttf(target, timeout))
+
+    def send_cmd_recv_rsp(self, target, data, timeout):
+        rsp = self._send_cmd_recv_rsp(target, data, timeout)
+        if is_atr_res(rsp):
+            self.trace.append(("act", "atr_res"))
+        return rsp
+
+    def _sense_tta(self, target):
         if self._tag_here() and self.tag.tech == "A" and \
                 target.brty == "106A":
             self._call("sense_tta")
@@ -111,7 +166,7 @@ class EnvDevice(simdev.SimDevice):
             return None
         return simdev.SimDevice.sense_tta(self, target)
 
-    def sense_ttf(self, target):
+    def _sense_ttf(self, target):
         if self._tag_here() and self.tag.tech == "F" and \
                 target.brty in ("212F", "424F"):
             self._call("sense_ttf")
@@ -122,7 +177,7 @@ class EnvDevice(simdev.SimDevice):
             return None
         return simdev.SimDevice.sense_ttf(self, target)
 
-    def send_cmd_recv_rsp(self, target, data, timeout):
+    def _send_cmd_recv_rsp(self, target, data, timeout):
         if self.tag_active:
             self._call("send_cmd_recv_rsp")
             self.tag_life -= 1
@@ -146,7 +201,7 @@ class EnvDevice(simdev.SimDevice):
         self._call("listen_ttb")
         raise nfc.clf.UnsupportedTargetError("sim: no type b listen")
 
-    def listen_ttf(self, target, timeout):
+    def _listen_ttf(self, target, timeout):
         if self.reader_visits > 0:
             self._call("listen_ttf")
             self.reader_visits -= 1
@@ -221,25 +276,9 @@ def case_strategy():
         "seed": st.integers(0, 255)})
 
 
-def run_connect(case, ctx):
-    s = vsched.Sched([], seed=case["seed"], step_budget=400000)
-    vsched.activate(s)
-    trace = []
-    air = simdev.Air()
-    clf = nfc.clf.ContactlessFrontend()
-    clf.device = EnvDevice(air, "dut", case["env"], trace)
-    peer = None
-    if case["env"]["peer"]:
-        peer = simdev.frontend(air, "peer")
-    tcalls = {"n": 0}
-    objects = {}
-
-    def terminate():
-        tcalls["n"] += 1
-        r = tcalls["n"] >= case["terminate_at"]
-        trace.append(("terminate", r, tcalls["n"]))
-        return r
-
+def build_options(case, trace, objects):
+    """the keyword arguments of connect() for a case, with recording
+    callbacks"""
     def cb(kind, name, spec, default):
         def f(arg):
             trace.append(("cb", kind, name, id(arg), type(arg).__name__))
@@ -289,6 +328,29 @@ def run_connect(case, ctx):
                 o["role"] = spec["role"]
             o["lto"] = spec["lto"]
         options[kind] = o
+    return options
+
+
+def run_connect(case, ctx):
+    s = vsched.Sched([], seed=case["seed"], step_budget=400000)
+    vsched.activate(s)
+    trace = []
+    air = simdev.Air()
+    clf = nfc.clf.ContactlessFrontend()
+    clf.device = EnvDevice(air, "dut", case["env"], trace)
+    peer = None
+    if case["env"]["peer"]:
+        peer = simdev.frontend(air, "peer")
+    tcalls = {"n": 0}
+    objects = {}
+
+    def terminate():
+        tcalls["n"] += 1
+        r = tcalls["n"] >= case["terminate_at"]
+        trace.append(("terminate", r, tcalls["n"]))
+        return r
+
+    options = build_options(case, trace, objects)
     out = {}
 
     def dut():
@@ -320,9 +382,19 @@ def run_connect(case, ctx):
     finally:
         s.shutdown()
         vsched.activate(None)
-    # ------------------------------------------------------------- oracle
-    kinds = [k for k in ("rdwr", "llcp", "card") if case[k] is not None]
     ctx.set_class("connect")
+    judge(case, ctx, trace, out, done, blocked, tcalls, objects)
+
+
+ACT_NEEDED = {"rdwr": ("sense",), "llcp": ("atr_res", "listen_dep"),
+              "card": ("listen",)}
+
+
+def judge(case, ctx, trace, out, done, blocked, tcalls, objects,
+          rounds=False):
+    """the documented contract of connect() against the recorded time line
+    (callbacks, driver calls, terminate() calls, completed discoveries)"""
+    kinds = [k for k in ("rdwr", "llcp", "card") if case[k] is not None]
     ctx.label("options=" + "+".join(kinds) if kinds else "options=none")
     if not done:
         raise Violation("connect-did-not-return",
@@ -401,6 +473,25 @@ def run_connect(case, ctx):
             raise Violation("on-release-missing",
                             "%s: on-connect returned true, connect() returned "
                             "%r, callbacks %r" % (kind, ret, seq))
+    # 2b. a callback of an activation needs an activation: since the
+    # previous callback of the same name for that option the driver must
+    # have completed a discovery of the matching kind (a tag answered the
+    # poll / the device was activated as card / an NFC-DEP ATR exchange or
+    # listen completed)
+    since = dict(((k, n), set()) for k in ACT_NEEDED
+                 for n in ("discover", "connect"))
+    for t in trace:
+        if t[0] == "act":
+            for got in since.values():
+                got.add(t[1])
+        elif t[0] == "cb" and t[2] in ("discover", "connect"):
+            if not since[(t[1], t[2])] & set(ACT_NEEDED[t[1]]):
+                raise Violation(
+                    "on-%s-without-activation" % t[2], "%s on-%s was called "
+                    "although the device completed no %s since the previous "
+                    "one; callbacks %r" % (t[1], t[2], "/".join(
+                        ACT_NEEDED[t[1]]), [c[1:3] for c in cbs][-8:]))
+            since[(t[1], t[2])] = set()
     # 3. return value
     fault = case["env"]["fault"]
     fault_hit = fault is not None and any(
@@ -457,7 +548,16 @@ def run_connect(case, ctx):
             raise Violation("not-prompt-after-terminate",
                             "%d driver calls after terminate() was true"
                             % ndrv)
-    if len(alive) >= 2 or released_false or any(
+    if rounds:
+        # an on-release returned a false value and connect() went back to
+        # discovery (a further round), or two activations in the one call
+        rel = [i for i, t in enumerate(trace) if t[0] == "cb"
+               and t[2] == "release" and not case[t[1]]["release"]]
+        again = rel and any(t[0] == "drv" and t[1].startswith(
+            ("sense_", "listen_")) for t in trace[rel[0]:])
+        if again or len([t for t in cbs if t[2] == "connect"]) >= 2:
+            ctx.nontrivial()
+    elif len(alive) >= 2 or released_false or any(
             case[k]["connect"] in (False, None, 0, "") for k in alive) or \
             (ti is not None and any(t[0] == "cb" and t[2] == "connect"
                                     for t in trace[:ti])):
@@ -467,6 +567,199 @@ def run_connect(case, ctx):
     ctx.note({"trace": [t[:3] for t in trace if t[0] != "drv"][:14],
               "driver_calls": len([t for t in trace if t[0] == "drv"]),
               "ret": repr(ret)[:60]})
+
+
+# ------------------------------------------------------------------ rounds
+# One connect() call that lives through SEVERAL discovery rounds: the
+# counterparts come and go by a script in virtual time (a director thread
+# walks through it), on-release mostly returns a false value so that the loop
+# goes on, terminate() turns true at a generated point of the script.
+class RoundsDevice(EnvDevice):
+    """EnvDevice whose tag / remote reader presence is switched by the
+    director; a tag that left does not answer, one that is back does"""
+
+    def __init__(self, air, name, trace):
+        EnvDevice.__init__(self, air, name, {"tag": None, "fault": None,
+                                             "reader_cmds": 0}, trace)
+        self.tags = {"t2t": make_tag("t2t"), "t3t": make_tag("t3t")}
+        self.present = False
+        self.tag_life = 10 ** 9
+
+    def _tag_here(self):
+        return self.tag is not None and self.present
+
+    def leave(self):
+        """whoever was in the field is gone: an activated tag answers no
+        more (a tag put there later needs a new activation)"""
+        self.present = False
+        self.tag_active = False
+        self.reader_visits = 0
+
+
+def _timed(name):
+    # every driver call takes a little (virtual) time, as on hardware: a poll
+    # loop without any pause must not freeze the script.  The time passes
+    # first, the call itself then sees one state of the field.
+    def call(self, *args):
+        vsched.current().sleep(0.001)
+        return getattr(EnvDevice, name)(self, *args)
+    call.__name__ = name
+    return call
+
+
+for _n in ("mute", "sense_tta", "sense_ttb", "sense_ttf", "sense_dep",
+           "listen_tta", "listen_ttb", "listen_ttf", "listen_dep",
+           "send_cmd_recv_rsp", "send_rsp_recv_cmd"):
+    setattr(RoundsDevice, _n, _timed(_n))
+
+
+FALSY = [False, None, 0, ""]
+TRUTHY = [True, 1, "x"]
+
+
+def round_opts(kind):
+    d = {
+        "startup": st.just("ok") if kind == "card" else
+        st.sampled_from(["ok", "ok", "default"]),
+        "discover": st.sampled_from(["default", "default", True, True, False]),
+        "connect": st.sampled_from(["default"] * 2 + TRUTHY * 2 + [False]),
+        # a false value keeps connect() going: the usual case here
+        "release": st.sampled_from(FALSY * 3 + ["default", True, "x"]),
+    }
+    if kind == "rdwr":
+        d["targets"] = st.sampled_from([None, ["106A"], ["212F"],
+                                        ["106A", "212F"], ["212F", "106A"]])
+        d["iterations"] = st.sampled_from([1, 2])
+        d["interval"] = st.just(0.05)
+        d["beep"] = st.sampled_from([None, False])
+    if kind == "llcp":
+        d["role"] = st.sampled_from([None, None, "initiator", "target"])
+        d["lto"] = st.sampled_from([100, 500])
+    if kind == "card":
+        d["brty"] = st.sampled_from(["212F", "424F"])
+    return st.fixed_dictionaries(d)
+
+
+WHO = {"rdwr": ["t2t", "t3t"], "llcp": ["initiator", "target"],
+       "card": ["reader"]}
+
+
+@st.composite
+def rounds_case(draw):
+    kinds = draw(st.sampled_from([
+        ["llcp"], ["llcp"], ["llcp"], ["rdwr"], ["card"], ["rdwr", "llcp"],
+        ["llcp", "card"], ["rdwr", "card"], ["rdwr", "llcp", "card"]]))
+    case = {"rdwr": None, "llcp": None, "card": None}
+    for k in kinds:
+        case[k] = draw(round_opts(k))
+    fitting = [w for k in kinds for w in WHO[k]]
+    who = st.sampled_from(fitting * 3 + ["nobody", "nobody"]
+                          + sorted(set(sum(WHO.values(), []))))
+    case["script"] = draw(st.lists(st.fixed_dictionaries({
+        "gap": st.sampled_from([0.0, 0.3, 1.3, 2.6]),
+        "who": who,
+        "stay": st.sampled_from([0.4, 1.1, 2.4]),
+        "cmds": st.integers(0, 3)}), min_size=2, max_size=5))
+    # terminate() turns true in the middle of episode `idx` or `tail`
+    # seconds after the last one
+    case["end"] = draw(st.one_of(
+        st.tuples(st.just("after"), st.sampled_from([0.1, 1.5, 4.0])),
+        st.tuples(st.just("after"), st.sampled_from([0.1, 1.5, 4.0])),
+        st.tuples(st.just("during"), st.integers(0, 4))))
+    case["env"] = {"fault": None}
+    case["seed"] = draw(st.integers(0, 255))
+    return case
+
+
+def run_rounds(case, ctx):
+    s = vsched.Sched([], seed=case["seed"], step_budget=300000)
+    vsched.activate(s)
+    trace = []
+    air = simdev.Air()
+    clf = nfc.clf.ContactlessFrontend()
+    dev = clf.device = RoundsDevice(air, "dut", trace)
+    peer = simdev.frontend(air, "peer")
+    script = case["script"]
+    t, starts = 0.0, []
+    for ep in script:
+        t += ep["gap"]
+        starts.append(t)
+        t += ep["stay"]
+    if case["end"][0] == "after":
+        t_end = t + case["end"][1]
+    else:
+        i = case["end"][1] % len(script)
+        t_end = starts[i] + script[i]["stay"] / 2
+    tcalls = {"n": 0}
+    objects = {}
+    peer_links = []
+
+    def terminate():
+        tcalls["n"] += 1
+        r = s.now >= t_end
+        if r or not trace or trace[-1][0] != "terminate":
+            trace.append(("terminate", r, tcalls["n"]))
+        return r
+
+    options = build_options(case, trace, objects)
+    out = {}
+
+    def dut():
+        try:
+            out["ret"] = clf.connect(terminate=terminate, **options)
+        except (vsched.Abort, vsched.StepBudget):
+            raise
+        except BaseException as e:
+            out["exc"] = e
+        out["done"] = True
+
+    def director():
+        for ep, start in zip(script, starts):
+            if s.now < start:
+                s.sleep(start - s.now)
+            who, until = ep["who"], s.now + ep["stay"]
+            if who in ("initiator", "target"):
+                def linked(llc):
+                    peer_links.append(s.now)
+                    return True
+                try:
+                    peer.connect(llcp={"role": who, "lto": 100,
+                                       "on-connect": linked},
+                                 terminate=lambda: s.now >= until)
+                except (vsched.Abort, vsched.StepBudget):
+                    raise
+                except BaseException:
+                    pass
+            elif who in ("t2t", "t3t"):
+                dev.tag = dev.tags[who]
+                dev.tag.reset()
+                dev.present = True
+            elif who == "reader":
+                dev.env["reader_cmds"] = ep["cmds"]
+                dev.reader_visits = 1
+            if s.now < until:
+                s.sleep(until - s.now)
+            dev.leave()
+    try:
+        s.spawn(dut, "dut")
+        s.spawn(director, "director")
+        s.run_until(lambda: out.get("done"), t_end + 40.0)
+        done = out.get("done")
+        blocked = [repr(x) for x in s.blocked()]
+    except vsched.StepBudget:
+        raise Violation("livelock", "step budget exhausted at t=%.1f "
+                        "(terminate at %.1f)" % (s.now, t_end))
+    finally:
+        s.shutdown()
+        vsched.activate(None)
+    ctx.set_class("rounds")
+    judge(case, ctx, trace, out, done, blocked, tcalls, objects, rounds=True)
+    cbs = [x for x in trace if x[0] == "cb"]
+    nconn = len([x for x in cbs if x[2] == "connect"])
+    ctx.label("activations=%d" % min(nconn, 4))
+    ctx.label("peer-links=%d" % min(len(peer_links), 3))
+    if nconn >= 2:
+        ctx.label("several-activations-in-one-call")
 
 
 # ------------------------------------------------------------------- sense
@@ -668,6 +961,24 @@ LEGS = [
              "call; non-trivial = >= 2 option groups survive start-up, a "
              "callback returned a false value, or terminate fired after an "
              "activation."),
+    Leg("rounds", run=run_rounds, gen=lambda tier: rounds_case(), quick=240,
+        thorough=6000, shards_quick=5, shards_thorough=16, nt_floor=0.2,
+        rule="one connect() call over a scripted field in virtual time: 2-5 "
+             "episodes (pause 0-2.6 s, then for 0.4-2.4 s a peer device = "
+             "second nfcpy stack as NFC-DEP initiator or target, a Type 2 or "
+             "Type 3 tag, a remote reader sending 0-3 commands, or nobody), "
+             "rdwr / llcp / card options in 9 combinations with on-release "
+             "mostly returning a false value (False, None, 0, '') so that "
+             "connect() goes back to discovery, on-connect true values / "
+             "default / False, roles, target lists; terminate() turns true "
+             "in the middle of a generated episode or 0.1-4 s after the last "
+             "one.  Checked with the oracle of the connect leg plus: every "
+             "on-discover / on-connect follows a discovery that the driver "
+             "really completed since the previous one (tag answered, card "
+             "activation, NFC-DEP ATR exchange or listen), connect() raises "
+             "nothing and returns within 40 s of virtual time.  non-trivial "
+             "= an on-release returned a false value and connect() polled "
+             "again, or >= 2 activations happened in the one call."),
     Leg("sense", run=run_sense, gen=lambda tier: sense_case(), quick=1500,
         thorough=40000, shards_quick=3, shards_thorough=16, nt_floor=0.2,
         rule="1-5 targets out of supported / unsupported bit rates / invalid "
